@@ -78,6 +78,7 @@ static std::string can_line(uint64_t t, const CanRec &c) {
     return l;
 }
 static uint64_t gap(Rng &r, uint64_t scale) {
+    if (r.chance(0.03)) return r.range(20, 200) * scale;  // an occasional long pause of the source
     switch (r.below(10)) {
     case 0: case 1: case 2: return 0;
     case 3: case 4: case 5: return r.range(1, scale / 20 + 1);
@@ -112,7 +113,8 @@ static std::string gen_tunnel(uint64_t seed, uint64_t idx, bool thorough) {
     }
     int nframes = (int)(r.chance(0.3) ? r.range(1, 6) : r.range(1, thorough ? 300 : 120));
     if (r.chance(0.6)) nframes = std::max(nframes, count * (int)r.range(1, 4));
-    if (nframes > 300) nframes = 300;
+    if (count <= 2 && r.chance(0.2)) nframes = (int)r.range(258, 300) * count;  // 8-bit sequence counters wrap inside the run
+    if (nframes > 600) nframes = 600;
     uint64_t lat_lo = r.range(1000, 100000), lat_hi = lat_lo + r.range(0, 2000000);
     size_t qcap = faults ? (size_t[]){2, 4, 8, 64, 4096}[r.below(5)] : 4096;
     uint64_t t = 1000000, scale = (uint64_t[]){20000, 200000, 2000000}[r.below(3)];
@@ -171,8 +173,30 @@ static Built build_can(Rng &r, bool udp, bool tscf, bool fd, uint64_t now_ns) {
     wire::Bytes acf;
     int k = (int)(r.chance(0.5) ? 1 : r.range(1, 6));
     std::vector<size_t> msg_off;
+    // "full buffer" datagrams: a chain of valid messages that ends exactly at, just before or just beyond the
+    // 1500 bytes the listener can receive (recv() truncates what is longer)
+    size_t fill_target = 0;
+    if (r.chance(0.3)) {
+        static const size_t totals[] = {1500, 1500, 1496, 1492, 1488, 1484, 1476, 1504, 1508, 1512, 1516, 1532, 1564};
+        size_t hdrs = (udp ? 4 : 0) + (tscf ? wire::TSCF_HDR : wire::NTSCF_HDR);
+        fill_target = totals[r.below(13)] - hdrs;
+        k = 200;
+    }
     for (int i = 0; i < k; i++) {
         CanRec c = gen_can_frame(r, r.chance(0.8) ? fd : !fd);
+        if (fill_target) {
+            size_t left = fill_target - acf.size();
+            if (left < 16) break;
+            if (left <= 16 + 64 + 3 && r.chance(0.8)) {  // last message: make it end exactly at the target
+                size_t pl = left - 16;
+                if (pl > 64) pl = 64;
+                if (r.coin() && pl >= 4) pl -= r.below(4);  // ... possibly with padding
+                c.fd = pl > 8 || c.fd;
+                c.len = (uint8_t)pl;
+                auto d = rnd_bytes(r, pl, 1);
+                memcpy(c.data, d.data(), pl);
+            }
+        }
         wire::CanMsg m{c.can_id & CAN_EFF_MASK, (c.can_id & CAN_EFF_FLAG) != 0, (c.can_id & CAN_RTR_FLAG) != 0, (c.flags & CANFD_BRS) != 0,
                        c.fd, (c.flags & CANFD_ESI) != 0, std::vector<uint8_t>(c.data, c.data + c.len), now_ns, (uint8_t)r.below(32)};
         msg_off.push_back(acf.size());
@@ -258,6 +282,7 @@ static Built build_vss(Rng &r, bool udp, bool tscf, uint64_t now_ns) {
 static Built build_cvf(Rng &r, uint64_t now_ns) {
     Built b;
     size_t n = r.chance(0.5) ? r.range(1, 64) : r.range(1, 1400);
+    if (r.chance(0.2)) n = (size_t[]){1396, 1399, 1400, 1401, 1404, 1408, 1420, 1472}[r.below(8)];  // around DATA_LEN and the receive size
     uint32_t ts = (uint32_t)(now_ns + (r.chance(0.7) ? r.range(0, 50000000) : r.next()));
     b.d = wire::cvf_h264((uint8_t)r.next(), kStreamId, ts, rnd_bytes(r, n));
     add_field(b, 0, 8); add_field(b, 8, 1); add_field(b, 9, 3); add_field(b, 15, 1); add_field(b, 16, 8); add_field(b, 32, 64);
@@ -406,7 +431,6 @@ static std::vector<uint8_t> h264_nal(Rng &r, size_t total) {
 }
 
 static std::string gen_c18(uint64_t seed, uint64_t idx, bool thorough) {
-    (void)thorough;
     Rng r(seed);
     Out o;
     struct Pair { const char *scen; int udp, fd; };
@@ -496,7 +520,7 @@ static std::string gen_c18(uint64_t seed, uint64_t idx, bool thorough) {
             last_fault_dg = std::max(first_fault_dg + 1, (int)(b2 * talker_dgs) - 1);
         }
         if (en_synth) {
-            int n = (int)(r.chance(0.3) ? r.range(1, 3) : r.range(1, r.chance(0.2) ? 200 : 40));
+            int n = (int)(r.chance(0.3) ? r.range(1, 3) : r.range(1, r.chance(thorough ? 0.4 : 0.2) ? (thorough ? 400 : 200) : 40));
             for (int i = 0; i < n; i++) {
                 uint64_t t = r.range(t1, t2 > t1 + 1 ? t2 - 1 : t1);
                 std::string note;
